@@ -485,6 +485,7 @@ package mocrelay
 
 //@ iface (Handler).ServeNostr
 //@   params(h, ctx, send, recv)
+//@   keeps ghost(started), ghost(endcalls), ghost(startctx), ghost(endctx)
 
 //@ func NewRecvEventUniqueFilterMiddleware$2
 //@   serves C18
@@ -873,29 +874,35 @@ package mocrelay
 
 //@ iface (SimpleHandlerBase).ServeNostrStart
 //@   params(b, ctx)
-//@   writes ghost(started, b)
+//@   writes ghost(started, b), ghost(startctx, b)
 //@   promises g(started, refof(b)) == (result1 == nil)
+//@   promises g(startctx, refof(b)) == result0
 //@ iface (SimpleHandlerBase).ServeNostrEnd
 //@   params(b, ctx)
-//@   writes ghost(endcalls, b)
+//@   writes ghost(endcalls, b), ghost(endctx, b)
 //@   promises g(endcalls, refof(b)) == old(g(endcalls, refof(b))) + 1
+//@   promises g(endctx, refof(b)) == ctx
 //@ iface (SimpleHandlerBase).ServeNostrClientMsg
 //@   params(b, ctx, msg)
 //@   ensures (result1 == nil && !isnil(result0)) ==> (fresh(result0) && chanhead(result0) == 0)
 //@   promises g(endcalls, refof(b)) == old(g(endcalls, refof(b))) && g(started, refof(b)) == old(g(started, refof(b)))
+//@   promises g(startctx, refof(b)) == old(g(startctx, refof(b)))
 
 //@ func SimpleHandler.ServeNostr
 //@   serves C16 C13
 //@   requires h != nil
 //@   assert @exit: g(endcalls, refof(h.base)) == old(g(endcalls, refof(h.base))) + ite(g(started, refof(h.base)), 1, 0)
+//@   assert @exit: g(started, refof(h.base)) ==> all(k, any, ctxval(g(endctx, refof(h.base)), k) == ctxval(g(startctx, refof(h.base)), k))
 //@   loop 1
 //@     invariant g(started, refof(h.base)) && g(endcalls, refof(h.base)) == old(g(endcalls, refof(h.base)))
+//@     invariant g(startctx, refof(h.base)) == ctx
 //@   loop 2
 //@     lwrites contents(send), contents(smsgCh), ghost(dropped, send)
 //@     invariant !isnil(smsgCh) && fresh(smsgCh) && chanbuf(smsgCh) == lold(chanbuf(smsgCh)) && lold(chanhead(smsgCh)) <= chanhead(smsgCh) && chanhead(smsgCh) <= len(chanbuf(smsgCh))
 //@     invariant g(dropped, send) >= lold(g(dropped, send))
 //@     invariant[C16] g(dropped, send) == lold(g(dropped, send)) ==> extendsBy(chanbuf(send), lold(chanbuf(send)), chanbuf(smsgCh), lold(chanhead(smsgCh)), chanhead(smsgCh))
 //@     invariant g(started, refof(h.base)) && g(endcalls, refof(h.base)) == old(g(endcalls, refof(h.base)))
+//@     invariant g(startctx, refof(h.base)) == ctx
 
 //@ func DefaultSimpleHandlerBase.ServeNostrClientMsg
 //@   serves C16
@@ -1175,8 +1182,24 @@ package mocrelay
 //@   requires filter != nil
 //@   writes nothing
 //@   ensures (filter.IDs != nil || filter.Authors != nil || filter.Kinds != nil || len(filter.Tags) > 0) ==> len(result) >= 1
-//@   loop 4 visited vs
-//@     invariant len(ret) >= lold(len(ret)) && all(k, string, vs[k] ==> len(ret) >= 1)
+//@   ensures[C03] forall(j, 0, len(result), grpKnown(result[j], filter))
+//@   ensures[C03] filter.IDs != nil ==> exists(j, 0, len(result), grpIDs(result[j], filter))
+//@   ensures[C03] filter.Authors != nil ==> exists(j, 0, len(result), grpAuthors(result[j], filter))
+//@   ensures[C03] filter.Kinds != nil ==> exists(j, 0, len(result), grpKinds(result[j], filter))
+//@   ensures[C03] all(name, string, has(filter.Tags, name) ==> exists(j, 0, len(result), grpTag(result[j], filter, name)))
+//@   loop 1 as i
+//@     invariant[C03] len(keys) == i && forall(k, 0, i, keys[k] == idxKeyID(filter.IDs[k]))
+//@   loop 2 as i
+//@     invariant[C03] len(keys) == i && forall(k, 0, i, keys[k] == idxKeyAuthor(filter.Authors[k]))
+//@   loop 3 as i
+//@     invariant[C03] len(keys) == i && forall(k, 0, i, keys[k] == idxKeyKind(filter.Kinds[k]))
+//@   loop 4 visited seen
+//@     invariant len(ret) >= lold(len(ret)) && all(k, string, seen[k] ==> len(ret) >= 1)
+//@     invariant[C03] forall(j, 0, len(ret), grpKnown(ret[j], filter))
+//@     invariant[C03] forall(j, 0, lold(len(ret)), ret[j] == lold(ret[j]))
+//@     invariant[C03] all(name, string, seen[name] ==> exists(j, 0, len(ret), grpTag(ret[j], filter, name)))
+//@   loop 5 as i
+//@     invariant[C03] len(keys) == i && forall(k, 0, i, keys[k] == idxKeyTag2(tag, vs[k]))
 
 //@ func eventCacheEvsIndex.Find
 //@   serves C03 C15
@@ -1185,27 +1208,59 @@ package mocrelay
 //@   writes nothing
 //@   ensures ok == !(filter.IDs == nil && filter.Authors == nil && filter.Kinds == nil && len(filter.Tags) == 0)
 //@   ensures ok ==> (ret != nil && fresh(ret) && treeValsOK(ret))
+//@   ensures[C03] ok ==> all(tk, eventCacheEvsCreatedAtKey, g(tmdom, ret)[tk] ==> (idxCand(c, filter, g(tmval, ret)[tk]) && tk == tkOf(g(tmval, ret)[tk]) && sinceUntilOK(filter, g(tmval, ret)[tk])))
+//@   ensures[C03] (ok && filter.Limit != nil && *filter.Limit >= 0) ==> g(tmsize, ret) <= *filter.Limit
 //@   loop 1 as n
 //@     lwrites nothing
 //@     invariant len(idMaps) == n && forall(i, 0, len(idMaps), idMaps[i] != nil && fresh(idMaps[i]) && mapMemOK(idMaps[i]))
-//@   loop 2
+//@     invariant[C03] forall(i, 0, n, forall(j, 0, n, i != j ==> idMaps[i] != idMaps[j]))
+//@     invariant[C03] forall(j, 0, n, all(ev, unbounded(*Event), has(idMaps[j], ev) == inGroup(c, keysSlice[j], ev)))
+//@   loop 2 as k
 //@     lwrites contents(m)
 //@     invariant m != nil && fresh(m) && mapMemOK(m)
-//@   loop 3
+//@     invariant[C03] forall(j, 0, len(idMaps), idMaps[j] != m)
+//@     invariant[C03] all(ev, unbounded(*Event), has(m, ev) == exists(i, 0, k, inIdx(c, keys[i], ev)))
+//@   loop 3 visited seen
 //@     lwrites contents(m)
 //@     invariant m != nil && fresh(m) && mapMemOK(m)
+//@     invariant[C03] forall(j, 0, len(idMaps), idMaps[j] != m)
+//@     invariant[C03] all(ev, unbounded(*Event), seen[ev] ==> inIdx(c, key, ev))
+//@     invariant[C03] all(ev, unbounded(*Event), has(m, ev) == (lold(has(m, ev)) || seen[ev]))
 //@   loop 4
 //@     lwrites each(i, 0, len(idMaps), contents(idMaps[i]))
 //@     invariant len(idMaps) >= 1 && len(idMaps) <= lold(len(idMaps))
 //@     invariant forall(i, 0, len(idMaps), idMaps[i] == lold(idMaps[i]))
 //@     invariant forall(i, 0, len(idMaps), idMaps[i] != nil && fresh(idMaps[i]))
 //@     invariant forall(i, 0, len(idMaps), mapMemOK(idMaps[i]))
-//@   loop 5
+//@     invariant[C03] all(key, eventCacheEvsIndexKey, all(ev, unbounded(*Event), inIdx(c, key, ev) == old(inIdx(c, key, ev))))
+//@     invariant[C03] forall(i, 0, lold(len(idMaps)), forall(j, 0, lold(len(idMaps)), i != j ==> lold(idMaps[i]) != lold(idMaps[j])))
+//@     invariant[C03] forall(i, 0, lold(len(idMaps)), exists(j, 0, len(keysSlice), all(ev, unbounded(*Event), lold(has(idMaps[i], ev) == inGroup(c, keysSlice[j], ev)))))
+//@     invariant[C03] forall(j, 0, len(keysSlice), exists(i, 0, lold(len(idMaps)), all(ev, unbounded(*Event), lold(has(idMaps[i], ev) == inGroup(c, keysSlice[j], ev)))))
+//@     invariant[C03] forall(i, 1, len(idMaps), all(ev, unbounded(*Event), has(idMaps[i], ev) == lold(has(idMaps[i], ev))))
+//@     invariant[C03] all(ev, unbounded(*Event), has(idMaps[0], ev) == (lold(has(idMaps[0], ev)) && forall(i, len(idMaps), lold(len(idMaps)), lold(has(idMaps[i], ev)))))
+//@   loop 5 visited seen
 //@     lwrites contents(m)
 //@     invariant mapMemOK(m)
-//@   loop 6
+//@     invariant[C03] all(key, eventCacheEvsIndexKey, all(ev, unbounded(*Event), inIdx(c, key, ev) == old(inIdx(c, key, ev))))
+//@     invariant[C03] all(ev, unbounded(*Event), has(m, ev) == (lold(has(m, ev)) && (seen[ev] ==> has(mlast, ev))))
+//@   assert[C03] @afterloop4: all(ev, unbounded(*Event), has(idMaps[0], ev) == forall(i, 0, lold(len(idMaps)), lold(has(idMaps[i], ev))))
+//@   assert[C03] @afterloop4: all(ev, unbounded(*Event), has(idMaps[0], ev) ==> forall(j, 0, len(keysSlice), lold(inGroup(c, keysSlice[j], ev))))
+//@   assert[C03] @afterloop4: all(ev, unbounded(*Event), forall(j, 0, len(keysSlice), lold(inGroup(c, keysSlice[j], ev))) ==> has(idMaps[0], ev))
+//@   assert[C03] @afterloop4: all(ev, unbounded(*Event), has(idMaps[0], ev) == inAllGroups(c, keysSlice, ev))
+//@   assert[C03] @aftercall_Match: has(idMaps[0], ev)
+//@   assert[C03] @aftercall_Match: inAllGroups(c, keysSlice, ev)
+//@   assert[C03] @aftercall_Match: filter.IDs == nil || exists(i, 0, len(filter.IDs), inIdx(c, idxKeyID(filter.IDs[i]), ev))
+//@   assert[C03] @aftercall_Match: filter.Authors == nil || exists(i, 0, len(filter.Authors), inIdx(c, idxKeyAuthor(filter.Authors[i]), ev))
+//@   assert[C03] @aftercall_Match: filter.Kinds == nil || exists(i, 0, len(filter.Kinds), inIdx(c, idxKeyKind(filter.Kinds[i]), ev))
+//@   assert[C03] @aftercall_Match: all(name, string, has(filter.Tags, name) ==> exists(j, 0, len(keysSlice), grpTag(keysSlice[j], filter, name) && inGroup(c, keysSlice[j], ev)))
+//@   assert[C03] @aftercall_Match: all(name, string, has(filter.Tags, name) ==> exists(i, 0, len(filter.Tags[name]), inIdx(c, idxKeyTag2(name, filter.Tags[name][i]), ev)))
+//@   assert[C03] @aftercall_Match: idxCand(c, filter, ev)
+//@   loop 6 visited seen
 //@     lwrites ghost(tmdom, ret), ghost(tmval, ret), ghost(tmsize, ret)
 //@     invariant ret != nil && fresh(ret) && treeValsOK(ret) && g(tmsize, ret) >= 0
+//@     invariant[C03] all(tk, eventCacheEvsCreatedAtKey, g(tmdom, ret)[tk] ==> (has(idMaps[0], g(tmval, ret)[tk]) && tk == tkOf(g(tmval, ret)[tk]) && sinceUntilOK(filter, g(tmval, ret)[tk])))
+//@     invariant[C03] all(tk, eventCacheEvsCreatedAtKey, g(tmdom, ret)[tk] ==> idxCand(c, filter, g(tmval, ret)[tk]))
+//@     invariant[C03] cnt >= 0 && g(tmsize, ret) <= cnt && (cnt <= limit || cnt == 0)
 
 //@ func EventCache.findNeedLock
 //@   serves C03 C15
@@ -1213,15 +1268,33 @@ package mocrelay
 //@   requires c != nil && held(c.mu) == 0 && forall(i, 0, len(filters), filters[i] != nil)
 //@   writes lock(c.mu)
 //@   ensures held(c.mu) == 0 && (result == nil || fresh(result))
-//@   loop 1
+//@   ensures[C03] result != nil ==> all(tk, eventCacheEvsCreatedAtKey, g(tmdom, result)[tk] ==> findSound(c, filters, tk, g(tmval, result)[tk]))
+//@   uses evKey_def
+//@   loop 1 as fi
 //@     lwrites ghost(tmdom, ret), ghost(tmval, ret), ghost(tmsize, ret)
 //@     invariant ret != nil && fresh(ret)
+//@     invariant[C03] all(tk, eventCacheEvsCreatedAtKey, g(tmdom, ret)[tk] ==> findSound(c, filters, tk, g(tmval, ret)[tk]))
 //@   loop 2
 //@     lwrites ghost(tmdom, ret), ghost(tmval, ret), ghost(tmsize, ret), it.node
 //@     invariant ret != nil && fresh(ret) && it.tree == t && t != nil && fresh(t) && treeValsOK(t)
+//@     invariant[C03] t != ret
+//@     invariant[C03] all(tk, eventCacheEvsCreatedAtKey, g(tmdom, ret)[tk] ==> findSound(c, filters, tk, g(tmval, ret)[tk]))
+//@   assert[C03] @aftercall_Value: ok ==> (idxCand(c.evsIndex, filter, callresult) && sinceUntilOK(filter, callresult))
+//@   assert[C03] @aftercall_Value: ok ==> retained(c, callresult)
+//@   assert[C03] @aftercall_Value: (ok && filter.IDs != nil) ==> hasStr(filter.IDs, callresult.ID)
+//@   assert[C03] @aftercall_Value: (ok && filter.Authors != nil) ==> hasStr(filter.Authors, callresult.Pubkey)
+//@   assert[C03] @aftercall_Value: (ok && filter.Kinds != nil) ==> hasInt(filter.Kinds, callresult.Kind)
+//@   assert[C03] @aftercall_Value: ok ==> all(k, string, has(filter.Tags, k) ==> eventHasTag(callresult, k, filter.Tags[k]))
+//@   assert[C03] @aftercall_Value: ok ==> nip01Match(filter, callresult)
+//@   assert[C03] @aftercall_Value: ok ==> nmatch(filter, callresult)
+//@   assert[C03] @aftercall_LimitMatch: retained(c, g(tmval, it.tree)[g(nodekey, it.node)]) && g(nodekey, it.node) == tkOf(g(tmval, it.tree)[g(nodekey, it.node)])
+//@   assert[C03] @aftercall_LimitMatch: callresult ==> nip01Match(filter, g(tmval, it.tree)[g(nodekey, it.node)])
+//@   assert[C03] @aftercall_LimitMatch: callresult ==> nmatch(filter, g(tmval, it.tree)[g(nodekey, it.node)])
 //@   loop 3
 //@     lwrites ghost(tmdom, ret), ghost(tmval, ret), ghost(tmsize, ret), it.node, m.cnt
 //@     invariant ret != nil && fresh(ret) && it.tree == c.evsCreatedAt && m != nil && fresh(m)
+//@     invariant[C03] repr(m, filter)
+//@     invariant[C03] all(tk, eventCacheEvsCreatedAtKey, g(tmdom, ret)[tk] ==> findSound(c, filters, tk, g(tmval, ret)[tk]))
 
 //@ func EventCache.Find
 //@   serves C03 C15
@@ -1229,9 +1302,11 @@ package mocrelay
 //@   writes ghost(lastfind, c), ghost(lastfindfilters, c), lock(c.mu)
 //@   ensures held(c.mu) == 0
 //@   promises result == g(lastfind, c) && g(lastfindfilters, c) == filters
+//@   ensures[C03] forall(i, 0, len(result), answerSound(c, filters, result[i]))
 //@   loop 1
 //@     lwrites it.node
 //@     invariant it.tree == tree && tree != nil
+//@     invariant[C03] forall(i, 0, len(ret), answerSound(c, filters, ret[i]))
 
 //@ func simpleCacheHandler.ServeNostrClientMsg
 //@   serves C16
@@ -1260,6 +1335,24 @@ package mocrelay
 //@   promises sent ==> g(dropped, ch) == old(g(dropped, ch))
 //@   promises !sent ==> g(dropped, ch) == old(g(dropped, ch)) + 1
 //@   ensures chanhead(ch) == old(chanhead(ch)) && chanclosed(ch) == old(chanclosed(ch))
+
+//@ iface (SimpleMiddlewareBase).ServeNostrStart
+//@   params(b, ctx)
+//@   writes ghost(started, b), ghost(startctx, b)
+//@   promises g(started, refof(b)) == (result1 == nil)
+//@   promises g(startctx, refof(b)) == result0
+//@ iface (SimpleMiddlewareBase).ServeNostrEnd
+//@   params(b, ctx)
+//@   writes ghost(endcalls, b), ghost(endctx, b)
+//@   promises g(endcalls, refof(b)) == old(g(endcalls, refof(b))) + 1
+//@   promises g(endctx, refof(b)) == ctx
+
+// the per-session function of the middleware wrapper: End is called exactly once iff Start succeeded, and with the
+// values of the context Start returned (bases keep their per-session key there; the two forwarding goroutines are concurrent glue, see simpleMiddlewareHandleRecv/Send)
+//@ func NewSimpleMiddleware$2
+//@   serves C13
+//@   assert @exit: g(endcalls, refof(base)) == old(g(endcalls, refof(base))) + ite(g(started, refof(base)), 1, 0)
+//@   assert @exit: g(started, refof(base)) ==> all(k, any, ctxval(g(endctx, refof(base)), k) == ctxval(g(startctx, refof(base)), k))
 
 //@ iface (SimpleMiddlewareBase).ServeNostrClientMsg
 //@   params(b, ctx, msg)
